@@ -301,6 +301,14 @@ def family_gfa2_twins(tier):
   for n in (2, 3):
     for sh in shapes(n, 2, kmin=1):
       out.append(("twin-star", spec("g2", n, "star", patterned(sh, 3))))
+  # identical unnamed E lines are distinct (parallel) edges: every shape with
+  # one of its edges written twice
+  for n in (2, 3):
+    for sh in shapes(n, 2 if quick else 3, kmin=1):
+      ls = patterned(sh, 2)
+      for i in range(len(ls)):
+        out.append(("twin-parallel", spec("g2", n, "seq", ls,
+                                          (edge_line(ls[i]),))))
   # the same adjacencies written with the sides of the E lines exchanged
   for n in (2, 3):
     for sh in shapes(n, 3, kmin=1):
